@@ -85,6 +85,8 @@ package mast
 //@ smt (declare-fun ord (Any Any) Int)
 //@ smt (assert (forall ((a Any)) (! (= (ord a a) 0) :pattern ((ord a a)))))
 //@ smt (assert (forall ((a Any) (b Any)) (! (and (= (< (ord a b) 0) (> (ord b a) 0)) (= (= (ord a b) 0) (= (ord b a) 0))) :pattern ((ord a b)))))
+//@ endtheory
+//@ theory ordtrans
 //@ smt (assert (forall ((a Any) (b Any) (c Any)) (! (=> (and (<= (ord a b) 0) (<= (ord b c) 0)) (and (<= (ord a c) 0) (=> (or (< (ord a b) 0) (< (ord b c) 0)) (< (ord a c) 0)))) :pattern ((ord a b) (ord b c)))))
 //@ endtheory
 // `healthy`: no abstract callee (store, comparator, layer function, marshaler) fails in this activation.
@@ -226,6 +228,22 @@ package mast
 //@ ensures unshared [C02] (and (> result 0) (not (mastNode.shared H result)))
 
 // ---------------------------------------------------------------------------------------
+// Persisted content (A3): the store is content-addressed and immutable, so what is stored under a
+// name is a function of the name alone: pnk = number of keys, pkey/pval/plink = the sequences.
+//@ smt (declare-fun pnk (Bytes) Int)
+//@ smt (declare-fun pkey (Bytes Int) Any)
+//@ smt (declare-fun pval (Bytes Int) Any)
+//@ smt (declare-fun plink (Bytes Int) Any)
+//@ smt (define-fun nameOf ((l Any)) Bytes (unbox_Bytes (a.val l)))
+// content of whatever a link denotes, resident or not
+//@ smt (define-fun lkN ((h Heap) (l Any)) Int (ite (isPtr l) (nkeys h (a.val l)) (pnk (nameOf l))))
+//@ smt (define-fun lkKey ((h Heap) (l Any) (i Int)) Any (ite (isPtr l) (KeyAt h (a.val l) i) (pkey (nameOf l) i)))
+//@ smt (define-fun lkVal ((h Heap) (l Any) (i Int)) Any (ite (isPtr l) (ValAt h (a.val l) i) (pval (nameOf l) i)))
+//@ smt (define-fun lkLink ((h Heap) (l Any) (i Int)) Any (ite (isPtr l) (LinkAt h (a.val l) i) (plink (nameOf l) i)))
+// NodeIs: resident node r carries exactly the content that link l denotes
+//@ smt (define-fun NodeIs ((h Heap) (r Int) (g Heap) (l Any)) Bool (and (= (nkeys h r) (lkN g l)) (forall ((i Int)) (! (=> (and (<= 0 i) (< i (nkeys h r))) (and (= (KeyAt h r i) (lkKey g l i)) (= (ValAt h r i) (lkVal g l i)))) :pattern ((KeyAt h r i)) :pattern ((ValAt h r i)))) (forall ((i Int)) (! (=> (and (<= 0 i) (<= i (nkeys h r))) (= (LinkAt h r i) (lkLink g l i))) :pattern ((LinkAt h r i))))))
+
+// ---------------------------------------------------------------------------------------
 // Loading
 
 //@ assumption A3/A4: loadPersisted (store access, node cache, decoding via reflection) is entered through a trusted contract: a successfully loaded node is shared, has a source name, has the n/n/n+1 shape and only nil or name links, or is an already existing shared node handed out by the cache; at most one Persist.Load per call
@@ -236,6 +254,7 @@ package mast
 //@ requires nn (> m 0)
 //@ ensures ok (=> (= err anil) (and (> result0 0) (<= result0 W) (Shape H result0) (mastNode.shared H result0) (not (mastNode.dirty H result0)) (LinksOK H result0)))
 //@ ensures fresharrays (=> (and (= err anil) (> result0 W0)) (FreshArrays H result0 W0))
+//@ ensures content (=> (= err anil) (NodeIs H result0 H0 (mkAny tid.string (box_Bytes l))))
 //@ ensures fail (=> (isErr err) (= result0 0))
 //@ ensures loads (and (>= (G.loads H) (G.loads H0)) (<= (G.loads H) (+ (G.loads H0) 1)))
 //@ ensures closure (=> (AllOK H0) (AllOK H))
@@ -250,6 +269,7 @@ package mast
 //@ ensures name (=> (and (isName link) (= err anil)) (and (> result0 0) (<= result0 W) (Shape H result0) (mastNode.shared H result0) (LinksOK H result0)))
 //@ ensures other (=> (and (not (isName link)) (not (= (a.tid link) tid.PmastNode))) (isErr err))
 //@ ensures ok (=> (= err anil) (and (> result0 0) (Shape H result0)))
+//@ ensures content [C01 C05 C19] (=> (= err anil) (NodeIs H result0 H0 link))
 //@ ensures fail (=> (isErr err) (= result0 0))
 //@ ensures loads (and (>= (G.loads H) (G.loads H0)) (<= (G.loads H) (+ (G.loads H0) (ite (isName link) 1 0))))
 //@ ensures closure (=> (AllOK H0) (AllOK H))
@@ -323,7 +343,7 @@ package mast
 //@ ensures path [C01 C10] (=> (= err anil) (and (>= (sl.len (findOptions.path H options)) (+ (sl.len (findOptions.path H0 options)) 1)) (= (pathAt H (findOptions.path H options) (- (sl.len (findOptions.path H options)) 1)) (mk_S_pathEntry result0 result1))))
 //@ ensures pathok [C01 C10] (=> (= err anil) (PathOK H (findOptions.path H options)))
 //@ ensures height [C01 C16] (and (<= (findOptions.currentHeight H options) (findOptions.currentHeight H0 options)) (>= (findOptions.currentHeight H options) (findOptions.targetLayer H options)))
-//@ ensures loads [C16] (and (>= (G.loads H) (G.loads H0)) (<= (- (G.loads H) (G.loads H0)) (- (findOptions.currentHeight H0 options) (findOptions.currentHeight H options))))
+//@ ensures loads [C16] (and (>= (G.loads H) (G.loads H0)) (<= (- (G.loads H) (G.loads H0)) (+ (- (findOptions.currentHeight H0 options) (findOptions.currentHeight H options)) (ite (isErr err) 1 0))))
 //@ ensures closure (AllOK H)
 //@ ensures healthy [C01] (=> healthy (= err anil))
 
@@ -334,3 +354,63 @@ package mast
 //@ abstract reflect.DeepEqual (a b) -> (r)
 //@ pure
 //@ ensures def (= r (deepEq a b))
+
+// ---------------------------------------------------------------------------------------
+// C19: loading validates the top node
+
+// TopOK: the node the root link denotes has strictly ascending keys, each of layer >= height
+//@ smt (define-fun TopSorted ((h Heap) (l Any)) Bool (and (=> (isPtr l) (Sorted h (a.val l))) (=> (not (isPtr l)) (forall ((j Int)) (! (=> (and (< 0 j) (< j (pnk (nameOf l)))) (< (ord (pkey (nameOf l) (- j 1)) (pkey (nameOf l) j)) 0)) :pattern ((pkey (nameOf l) j)))))))
+//@ smt (define-fun TopLayers ((h Heap) (l Any) (bf Int) (ht Int)) Bool (and (=> (isPtr l) (forall ((j Int)) (! (=> (and (<= 0 j) (< j (nkeys h (a.val l)))) (>= (layerOf (KeyAt h (a.val l) j) bf) ht)) :pattern ((KeyAt h (a.val l) j))))) (=> (not (isPtr l)) (forall ((j Int)) (! (=> (and (<= 0 j) (< j (pnk (nameOf l)))) (>= (layerOf (pkey (nameOf l) j) bf) ht)) :pattern ((pkey (nameOf l) j)))))))
+
+//@ func (*Mast).checkRoot
+//@ tags C19
+//@ modifies W G.loads Arr.Any@fresh Node.*@fresh mastNode.*@fresh Box.Bytes@fresh
+//@ requires nn (and (> m 0) (not (= (Mast.keyOrder H m) 0)) (not (= (Mast.keyLayer H m) 0)))
+//@ requires ptrok (=> (= (a.tid (Mast.root H m)) tid.PmastNode) (and (> (a.val (Mast.root H m)) 0) (Shape H (a.val (Mast.root H m)))))
+//@ ensures sorted [C19] (=> (= err anil) (TopSorted H0 (Mast.root H0 m)))
+//@ ensures layers [C19] (=> (= err anil) (TopLayers H0 (Mast.root H0 m) (Mast.branchFactor H0 m) (Mast.height H0 m)))
+//@ ensures counts [C19] (=> (= err anil) (and (= (nvals H node) (nkeys H node)) (= (nlinks H node) (+ (nkeys H node) 1))))
+//@ ensures loads [C16] (<= (G.loads H) (+ (G.loads H0) 1))
+//@ loop 1 invariant idx [C19] (and (<= (- 1) rangeindex) (<= rangeindex (nkeys H node)) (> node 0) (NodeIs H node H0 (Mast.root H0 m)))
+//@ loop 1 invariant last [C19] (=> (>= rangeindex 0) (= last (KeyAt H node rangeindex)))
+//@ loop 1 invariant sorted [C19] (forall ((j Int)) (! (=> (and (< 0 j) (<= j rangeindex)) (< (ord (KeyAt H node (- j 1)) (KeyAt H node j)) 0)) :pattern ((KeyAt H node j))))
+//@ loop 1 invariant layers [C19] (forall ((j Int)) (! (=> (and (<= 0 j) (<= j rangeindex)) (>= (layerOf (KeyAt H node j) (Mast.branchFactor H0 m)) (Mast.height H0 m))) :pattern ((KeyAt H node j))))
+
+// ---------------------------------------------------------------------------------------
+// Powers of the branch factor (C04, C05)
+//@ theory pow
+//@ smt (declare-fun pow (Int Int) Int)
+//@ smt (assert (forall ((b Int)) (! (= (pow b 0) 1) :pattern ((pow b 0)))))
+// powstep is an explicit trigger: mentioning (powstep b e) makes the unfolding of pow(b,e+1) available
+//@ smt (declare-fun powstep (Int Int) Bool)
+//@ smt (assert (forall ((b Int) (e Int)) (! (powstep b e) :pattern ((powstep b e)))))
+//@ smt (assert (forall ((b Int) (e Int)) (! (=> (>= e 0) (= (pow b (+ e 1)) (* (pow b e) b))) :pattern ((powstep b e)))))
+//@ endtheory
+
+//@ func DefaultKeyCompare
+//@ tags C14 C19
+//@ modifies W Box.Int@fresh
+//@ ensures nonnil (not (= result 0))
+
+//@ func DefaultLayer
+//@ tags C14 C19
+//@ modifies W Box.Int@fresh
+//@ ensures nonnil (not (= result 0))
+
+//@ func (*Root).LoadMast
+//@ tags C04 C05 C14 C16 C19
+//@ uses pow
+//@ modifies W G.loads Arr.Any@fresh Node.*@fresh mastNode.*@fresh Box.Bytes@fresh Box.Int@fresh Mast.*@fresh
+//@ requires nn (and (> r 0) (> config 0))
+//@ requires bf [C19] (and (>= (Root.BranchFactor H r) 0) (< (Root.BranchFactor H r) 1073741824))
+//@ requires globals (and (not (= (G.defaultMarshal H) 0)) (not (= (G.defaultUnmarshal H) 0)))
+//@ ensures format [C19 C14] (=> (and (not (= (Root.NodeFormat H0 r) (G.V115Binary H0))) (not (= (Root.NodeFormat H0 r) "")) (not (= (Root.NodeFormat H0 r) (G.V1Marshaler H0)))) (isErr err))
+//@ ensures nf [C05 C14] (=> (= err anil) (= (Mast.nodeFormat H result0) (ite (= (Root.NodeFormat H0 r) (G.V115Binary H0)) (G.V115Binary H0) (G.V1Marshaler H0))))
+//@ ensures fields [C05] (=> (= err anil) (and (> result0 W0) (= (Mast.size H result0) (Root.Size H0 r)) (= (Mast.height H result0) (Root.Height H0 r)) (= (Mast.branchFactor H result0) (Root.BranchFactor H0 r)) (= (Mast.persist H result0) (RemoteConfig.StoreImmutablePartsWith H0 config)) (= (Mast.nodeCache H result0) (RemoteConfig.NodeCache H0 config))))
+//@ ensures root [C05 C19] (=> (= err anil) (ite (= (Root.Link H0 r) 0) (and (isPtr (Mast.root H result0)) (> (a.val (Mast.root H result0)) W0) (= (nkeys H (a.val (Mast.root H result0))) 0)) (= (Mast.root H result0) (mkAny tid.string (box_Bytes (deref.Bytes H0 (Root.Link H0 r)))))))
+//@ ensures thresholds [C04 C05] (=> (= err anil) (and (= (Mast.shrinkBelowSize H result0) (pow (Root.BranchFactor H0 r) (Root.Height H0 r))) (powstep (Root.BranchFactor H0 r) (Root.Height H0 r)) (= (Mast.growAfterSize H result0) (pow (Root.BranchFactor H0 r) (+ (Root.Height H0 r) 1)))))
+//@ ensures checked [C19] (=> (= err anil) (and (TopSorted H (Mast.root H result0)) (TopLayers H (Mast.root H result0) (Root.BranchFactor H0 r) (Root.Height H0 r))))
+//@ ensures callbacks [C19] (=> (= err anil) (and (not (= (Mast.keyOrder H result0) 0)) (not (= (Mast.keyLayer H result0) 0)) (not (= (Mast.marshal H result0) 0)) (not (= (Mast.unmarshal H result0) 0))))
+//@ ensures loads [C16] (<= (G.loads H) (+ (G.loads H0) 1))
+//@ ensures fail (=> (isErr err) (= result0 0))
+//@ loop 1 invariant pow [C04 C05] (and (<= 0 i) (<= i (Root.Height H0 r)) (powstep (Root.BranchFactor H0 r) i) (= shrinkSize (pow (Root.BranchFactor H0 r) i)))
